@@ -1863,13 +1863,16 @@ func findChild(parentEl *etree.Element, childNS string, childTag string) (*etree
 }
 
 func elementToBytes(el *etree.Element) ([]byte, error) {
+	// The namespace each element prefix of the document is bound to (the last binding, in
+	// document order, wins). The bindings in scope are carried along the walk: asking every
+	// element for its NamespaceURI() climbs all of its ancestors again, which makes the
+	// time quadratic in the nesting depth an (unauthenticated) sender chooses.
 	namespaces := map[string]string{}
-	for _, childEl := range el.FindElements("//*") {
-		ns := childEl.NamespaceURI()
-		if ns != "" {
-			namespaces[childEl.Space] = ns
-		}
+	root := el
+	for root.Parent() != nil {
+		root = root.Parent()
 	}
+	collectElementNamespaces(root, map[string]string{}, namespaces)
 
 	doc := etree.NewDocument()
 	doc.WriteSettings = wireWriteSettings
@@ -1879,6 +1882,41 @@ func elementToBytes(el *etree.Element) ([]byte, error) {
 	}
 
 	return doc.WriteToBytes()
+}
+
+// collectElementNamespaces records in namespaces, for el and each element below it, the
+// namespace URI that the element's prefix (or the default namespace, for an element without
+// prefix) is bound to, if any. scope holds the bindings in scope at el's parent.
+func collectElementNamespaces(el *etree.Element, scope map[string]string, namespaces map[string]string) {
+	copied := false
+	for _, attr := range el.Attr {
+		var prefix string
+		switch {
+		case attr.Space == "xmlns":
+			prefix = attr.Key
+		case attr.Space == "" && attr.Key == "xmlns":
+			prefix = ""
+		default:
+			continue
+		}
+		if !copied {
+			outer := scope
+			scope = make(map[string]string, len(outer)+1)
+			for k, v := range outer {
+				scope[k] = v
+			}
+			copied = true
+		}
+		scope[prefix] = attr.Value
+	}
+	if el.Tag != "" {
+		if ns := scope[el.Space]; ns != "" {
+			namespaces[el.Space] = ns
+		}
+	}
+	for _, child := range el.ChildElements() {
+		collectElementNamespaces(child, scope, namespaces)
+	}
 }
 
 // unmarshalElement serializes el into v by serializing el and then parsing it with encoding/xml.
